@@ -183,6 +183,7 @@ impl Monitor for PayMonitor {
 							p.stale_restart_since_terminal = true;
 							if live.contains(pi) {
 								p.stale_restart_with_live_htlc = true;
+								v.rep.count("c03_p4_stale_restarts_with_a_settled_htlc_still_committed_and_its_claim_durable");
 								p.live_detail = format!("restart at step {} from the manager of step {}", w.step, ss);
 							}
 						}
